@@ -103,7 +103,13 @@ fn main() {
         }
     }
     // Silence the default panic message: panics of the code under test are outcomes, not noise.
-    std::panic::set_hook(Box::new(|_| {}));
+    // (OXIVERIF_PANIC_MSG=1 keeps it, for diagnosing an abort)
+    if std::env::var_os("OXIVERIF_PANIC_MSG").is_none() {
+        std::panic::set_hook(Box::new(|_| {}));
+    }
+    if let Some(p) = &stats_path {
+        let _ = e2e::CURRENT_CASE_FILE.set(format!("{}.current", p));
+    }
     let mut ctx = Ctx {
         seed,
         n,
